@@ -13,7 +13,7 @@ DECLS = {
     "rec": ("function even(int n) -> boolean { if (n == 0) { return true; } return odd(n - 1); }\nfunction odd(int n) -> boolean { if (n == 0) { return false; } return even(n - 1); }", [], ["echo(even(4));", "echo(odd(4));"]),
     "B": ("class B { public int b = 1; public int b2 = 11; public constructor() -> B = default; public virtual function m() -> int { return this.b + f1(1); } public function keep() -> int { return this.b2; } }",
           ["f1"], ["B ob = new B();", "echo(ob.m());", "echo(ob.keep());"]),
-    "D": ("class D extends B { public int d = 2; public constructor() -> D { super(); } public override function m() -> int { return this.b * 10 + this.d; } public function own() -> int { return this.d + this.b2; } }",
+    "D": ("class D extends B { public int d = 2; public constructor() -> D { super(); } public virtual override function m() -> int { return this.b * 10 + this.d; } public function own() -> int { return this.d + this.b2; } }",
           ["B"], ["B od = new D();", "echo(od.m());", "D dd = new D();", "echo(dd.own());", "echo(dd.b);", "echo(dd.d);", "echo(dd.keep());"]),
     "E": ("class E extends D { public int e = 3; public constructor() -> E { super(); } public override function m() -> int { return this.e + this.d * 100; } }",
           ["D"], ["B oe = new E();", "echo(oe.m());", "E ee = new E();", "echo(ee.e);", "echo(ee.d);", "echo(ee.b2);"]),
@@ -21,6 +21,14 @@ DECLS = {
           [], ["G<int> gi = new G<int>();", "echo(gi.get());", "echo(gi.tag);"]),
     "H": ("class H extends G<int> { public int h = 5; public constructor() -> H { super(); } public function both() -> int { return this.get() + this.h + this.tag; } public override function get() -> int { return this.tag * 2; } }",
           ["G"], ["H oh = new H();", "echo(oh.both());", "echo(oh.h);", "echo(oh.tag);", "G<int> gh = new H();", "echo(gh.get());"]),
+    "Sh": ("class Sh { public int sides; public constructor(int s) -> Sh { this.sides = s; } public virtual function describe() -> string { return \"shape\"; } }", [],
+           ["Sh sh = new Sh(4);", "echo(sh.describe());"]),
+    "Tri": ("class Tri extends Sh { public constructor() -> Tri { super(3); } public override function describe() -> string { return \"triangle\"; } }", ["Sh"],
+            ["Sh st = new Tri();", "echo(st.describe());", "echo(st.sides);"]),
+    "Hold": ("class Hold<T extends Sh> { public T item; public constructor(T item) -> Hold<T> { this.item = item; } public function sides() -> int { return this.item.sides; } public function kind() -> string { return this.item.describe(); } }",
+             ["Sh"], ["Hold<Sh> hs = new Hold<Sh>(new Sh(5));", "echo(hs.sides());", "echo(hs.kind());"]),
+    "TH": ("class TH extends Hold<Tri> { public string tag; public constructor(Tri t, string tag) -> TH { super(t); this.tag = tag; } }", ["Hold", "Tri"],
+           ["TH th = new TH(new Tri(), \"held\");", "echo(th.tag);", "echo(th.sides());", "echo(th.kind());"]),
     "S": ("static class S { public static int count = 4; public static function twice(int a) -> int { return f1(a) * 2; } }", ["f1"], ["echo(S.twice(3));", "echo(S.count);"]),
     "U": ("class U { public int u = 6; public constructor() -> U = default; public function viaS() -> int { return S.twice(this.u); } }", ["S"], ["U ou = new U();", "echo(ou.viaS());"]),
 }
